@@ -109,6 +109,10 @@ def compare(rec, model_out):
         if b == 'bad-op':
             rec['infra'] = f'driver answered bad-op to: {rec["lines"][i]}'
             return
+        if b == 'unsupported':
+            # the model declares the input outside its domain: not compared, counted in the distribution
+            rec['unsupported'] = rec.get('unsupported', 0) + 1
+            continue
         if a != b:
             rec['div'] = {'index': i, 'line': rec['lines'][i], 'impl': a, 'model': b}
             return
@@ -141,7 +145,8 @@ def process_chunk(chunk):
         h = hashlib.sha1('\n'.join((r['lines'] or []) + (r['trace'] or [])).encode()).hexdigest()[:16]
         keep = r['infra'] or r['div'] or r['viol']
         summary.append({
-            'hash': h, 'tags': r['tags'], 'nontrivial': r['nontrivial'],
+            'hash': h, 'tags': r['tags'] + (['model-unsupported'] if r.get('unsupported') else []),
+            'nontrivial': r['nontrivial'],
             'nlines': len(r['lines'] or []),
             'infra': r['infra'], 'div': r['div'], 'viol': r['viol'],
             'scn': r['scn'] if keep else None,
